@@ -157,6 +157,8 @@ def control_family() -> list[dict]:
     fam.append(P("susp", [S("a"), S("w", ["a"], tasks=[T("w.1", "suspend")]), S("z", ["w"])]))
     fam.append(P("suspmulti", [S("w", tasks=[T("w.1"), T("w.2", "suspend"), T("w.3")]), S("z", ["w"])]))
     fam.append(P("susp2", [S("w", tasks=[T("w.1", "suspend", 2)]), S("z", ["w"])]))     # needs two approvals
+    # every signal carries the same name and payload (two people sending "approve"): distinct signals, equal content
+    fam.append(P("suspsame", [S("a"), S("w", ["a"], tasks=[T("w.1", "suspend")]), S("z", ["w"])], sigSame=True))
     fam.append(P("suspside", [S("a"), S("w", ["a"], tasks=[T("w.1", "suspend")]), S("x", ["a"]), S("z", ["w", "x"])]))
     fam.append(P("mutex2", [S("a"), S("b", ["a"], mutex="m"), S("c", ["a"], mutex="m"), S("d", ["b", "c"])]))
     fam.append(P("mutex3", [S("b", mutex="m", tasks=[T("b.1"), T("b.2")]), S("c", mutex="m"), S("e", mutex="m")]))
@@ -197,6 +199,8 @@ def build_workflow(prog: dict):
             ctx["failPipeline"] = False
         if sd["enabled"] is not None:
             ctx["stageEnabled"] = sd["enabled"]
+        if any(t["k"] == "verify" for t in sd["tasks"]):
+            ctx["verification"] = {"type": "callable", "callable": "vverif", "max_retries": 99, "retry_delay_seconds": 900}
         tasks = []
         for j, td in enumerate(sd["tasks"]):
             te = TaskExecution.create(name=td["name"], implementing_class=task_class_name(td["name"]),
@@ -345,7 +349,8 @@ def tla_program(prog: dict) -> dict:
     stage_of = {}
     for s in st:
         for t in s["tasks"]:
-            beh[t["name"]] = {"k": "jump" if t["k"] == "jump2" else t["k"], "n": t["n"], "target": t["target"],
+            # (verify: a verifier answering RETRY n times = a transient failure without context update)
+            beh[t["name"]] = {"k": {"jump2": "jump", "verify": "transientNoCtx"}.get(t["k"], t["k"]), "n": t["n"], "target": t["target"],
                               "targets": t["target"].split(",") if t["target"] else [""]}
             stage_of[t["name"]] = s["ref"]
     return {
@@ -368,6 +373,7 @@ def tla_program(prog: dict) -> dict:
         "enabled": {s["ref"]: ("none" if s["enabled"] is None else ("yes" if s["enabled"] else "no"))
                     for s in st},
         "lazy": {s["ref"]: bool(s.get("lazy")) for s in st},
+        "sigSame": bool(prog.get("sigSame")),
         "maxJumps": prog.get("maxJumps", -1) if prog.get("maxJumps", -1) >= 0 else 10,
     }
 
